@@ -26,6 +26,7 @@ type searchPlan struct {
 	signers  [][]string
 	alpha    wh.AlphaOpts
 	workers  int
+	cold     bool
 	aliasing bool
 	preStep  func()
 	reps     int
@@ -62,7 +63,7 @@ func runPlan(run *ev.Run, p searchPlan, mon func(*wh.Step), extraReqs func(g *wh
 				return append(wh.Alphabet(gen, la, st, alpha), extra...)
 			}
 			st, tr := wh.Search(wh.SearchOpts{U: u, Gen: gen, Store: store, Signers: sg, Log: la, Extra: []wh.LogCfg{lb}, AlphaFn: fn,
-				Workers: p.workers, OnStep: mon, PreStep: p.preStep, CheckAliasing: p.aliasing, Run: run, Reps: p.reps, Prelude: prelude})
+				Workers: p.workers, OnStep: mon, PreStep: p.preStep, CheckAliasing: p.aliasing, Run: run, Reps: p.reps, Prelude: prelude, Cold: p.cold})
 			states += st
 			trans += tr
 			run.Set(fmt.Sprintf("states[%s,%v]", store, sg), st)
@@ -95,7 +96,7 @@ func unknownReqs(g *wh.CPGen, u *uni.U, la wh.LogCfg) []wh.Req {
 func c01(tier string) int {
 	run := ev.NewRun("C01", tier, "model_checking")
 	wh.InstallLogicalClock()
-	p := searchPlan{n: 8, divs: []int{0, 1, 3, 4}, stores: []string{"mem", "sql"},
+	p := searchPlan{n: 8, divs: []int{0, 1, 3, 4}, stores: []string{"mem", "sql"}, cold: true,
 		alpha: wh.AlphaOpts{MaxN: 8, Forged: true, HugeOlds: true, RichProof: true}}
 	if tier == "thorough" {
 		p.n, p.alpha.MaxN = 17, 17
@@ -145,7 +146,7 @@ func c03(tier string) int {
 	// Two byte-representatives per state: the second one is reached through a
 	// checkpoint with eight extra signature lines (a stored checkpoint of ~1.3 KB:
 	// size-dependent handling of the stored bytes on a refusal path).
-	p := searchPlan{n: 8, divs: []int{0, 3}, stores: []string{"mem", "sql"}, twoLogs: true, aliasing: true, reps: 2,
+	p := searchPlan{n: 8, divs: []int{0, 3}, stores: []string{"mem", "sql"}, twoLogs: true, aliasing: true, reps: 2, cold: true,
 		alpha: wh.AlphaOpts{MaxN: 8, Forged: true, HugeOlds: true, RichProof: true, Shapes: []string{"plain", "junk8"}}}
 	if tier == "thorough" {
 		p.n, p.alpha.MaxN = 17, 17
